@@ -7,11 +7,9 @@ parameters, (iii) T = K(1-iK)^-1 resp. T^ = K^(1-i rho K^)^-1, T = conj(sqrt rho
 
 from __future__ import annotations
 
-import ast
-
-from ..loader import AnalysisError, Tree, unparse, walk_function
-from ..ncterms import NC, NCEval, nc_func
-from ..poly import RF, D, equal, sym
+from ..loader import AnalysisError, Tree, unparse
+from ..ncterms import NC, NCEval, inverted_symbols, nc_func
+from ..poly import RF, D, show_poly, sym
 from ..report import Check
 from ..rules import symbol_sites
 from ..terms import Opaque, TermEval, deep_atoms, vkey
@@ -50,12 +48,13 @@ def check_k_symmetric_real(ctx: Check, tree: Tree, te: TermEval, cls_name: str) 
                 "imaginary unit inside the K-matrix parametrisation" if has_i else None)
     # pole structure: denominator (m_R^2 - s), summed over the poles 1..n_poles
     info = te.apps.get(te.single_atom(a)) if te.single_atom(a) in te.apps else None
-    ok_sum = info is not None and info.cls == "Sum"
-    if ok_sum:
-        limits = info.args[1]
-        ok_sum = vkey(limits) == vkey(te_tuple([sym("pole_id"), RF.const(1), sym("n_poles")]))
+    if info is None or info.cls != "Sum" or len(info.args) < 2:
+        # another shape of result (a product with a Sum, an explicit sum ...): nothing is known about the limits
+        raise AnalysisError(f"{fn.qual}: does not return one Sum(<summand>, (pole_id, 1, n_poles)): the limits of the pole sum cannot be read off")
+    limits = info.args[1]
+    ok_sum = len(info.args) == 2 and vkey(limits) == vkey(te_tuple([sym("pole_id"), RF.const(1), sym("n_poles")]))
     ctx.verdict(ok_sum, "R-TERM", key + "::pole-sum", where,
-                f"{cls_name}.parametrization sums over (pole_id, 1, n_poles)", None if ok_sum else "limits of the pole sum changed")
+                f"{cls_name}.parametrization sums over (pole_id, 1, n_poles)", None if ok_sum else f"limits of the pole sum changed: {limits!r:.120}")
 
 
 def te_tuple(items):
@@ -64,8 +63,8 @@ def te_tuple(items):
     return Tup(list(items))
 
 
-def accepted_t(rel: bool, return_hat: bool) -> list[NC]:
-    K, rho, one = NC.sym("K"), NC.sym("rho"), NC.eye()
+def accepted_t(rel: bool, return_hat: bool, rho_name: str = "rho") -> list[NC]:
+    K, rho, one = NC.sym("K"), NC.sym(rho_name), NC.eye()
     if not rel:
         x = (one - I * K).inv()
         return [K * x, x * K]
@@ -76,70 +75,358 @@ def accepted_t(rel: bool, return_hat: bool) -> list[NC]:
     return [nc_func("conj", sq) * h * sq for h in hat]
 
 
-def check_t_matrix(ctx: Check, tree: Tree, cls_name: str, rel: bool) -> None:
-    fn = tree.func(f"{MOD}::{cls_name}._create_matrices")
-    nce = NCEval(tree)
-    flags_list = [{"return_t_hat": False}, {"return_t_hat": True}] if "return_t_hat" in fn.params else [{}]
-    # closed forms for a concrete number of channels: `if n_channels == 2: ...`.  The generic path is
-    # decided on non-commutative terms with every such test False; each special size is decided on an
-    # explicit symbol matrix, entry by entry, against the defining identity T (1 - iK) = K.
-    special: dict[str, tuple[str, int]] = {}
-    for node in walk_function(fn.node):
-        if isinstance(node, ast.If):
-            t = node.test
-            if (isinstance(t, ast.Compare) and len(t.ops) == 1 and isinstance(t.ops[0], ast.Eq) and isinstance(t.left, ast.Name) and t.left.id in fn.params
-                    and isinstance(t.comparators[0], ast.Constant) and isinstance(t.comparators[0].value, int)):
-                special[unparse(t)] = (t.left.id, t.comparators[0].value)
-    nce.assume = {k: False for k in special}
-    for test, (pname, size) in sorted(special.items()):
-        from ..dense import DenseEval, Mat
-        from ..poly import I as IMAG
-        from ..poly import RF
+def rho_family(model) -> str:
+    """The name of the diagonal placeholder family the interpreted code built (`Symbol(f"rho{i}")` -> "rho"):
+    the matrix formula is judged up to that name, the pairing of the names is a rule of its own."""
+    names = sorted({f[1] for f in model.diagonal if f[0] == "sym"})
+    return names[0] if len(names) == 1 else "rho"
 
-        if rel:
-            raise AnalysisError(f"{fn.qual}: closed form for `{test}` in the relativistic T-matrix (rho placeholders) is outside the dense evaluator")
-        for flags in flags_list:
-            res = DenseEval(tree, fn, {pname: size}, flags).run()
-            if not (isinstance(res, tuple) and len(res) == 2 and all(isinstance(x, Mat) for x in res)):
-                raise AnalysisError(f"{fn.qual}: branch `{test}` does not return (T, K) matrices")
-            t_m, k_m = res
-            lhs = t_m.matmul(Mat.eye(size) - k_m.map(lambda x: IMAG * x))
-            ok = lhs.equals(k_m) and k_m.equals(Mat.symbols("K", size, size))
-            ctx.verdict(ok, "R-TERM-NC", f"{fn.qual}::closed-form::{test}::{sorted(flags.items())}", tree.loc(fn.node),
-                        f"{cls_name}._create_matrices, branch `{test}`: the closed form satisfies T (1 - iK) = K entry by entry on a {size}x{size} symbol matrix",
-                        None if ok else {"T(1-iK) - K, entry [0,0]": repr(lhs.rows[0][0] - k_m.rows[0][0])[:300]})
-    for flags in flags_list:
+
+def _size_params(fn, flags) -> list[str]:
+    a = fn.node.args
+    names = [x.arg for x in [*a.posonlyargs, *a.args]]
+    if names and names[0] in {"cls", "self"} and fn.cls is not None:
+        names = names[1:]
+    return [n for n in names if n not in flags]
+
+
+def dense_run(tree: Tree, fn, size: int, flags: dict):
+    """``fn`` interpreted on explicit matrices for ``size`` channels: (first returned matrix, model).  The first
+    size parameter is the number of channels, a second one (``n_poles``) a symbol."""
+    from ..dense import DenseEval, Mat
+    from ..poly import RF
+
+    names = _size_params(fn, flags)
+    if not names:
+        raise AnalysisError(f"{fn.qual}: no size parameter")
+    de = DenseEval(tree, fn, {names[0]: size}, flags)
+    if fn.name == "formulate" and len(names) > 1:
+        de.kwargs[names[1]] = de.model.wrap(RF.atom(("sym", names[1], ())))
+    res = de.run()
+    first = res[0] if isinstance(res, tuple) else res
+    if not isinstance(first, Mat):
+        raise AnalysisError(f"{fn.qual}: does not return a matrix for {size} channel(s)")
+    return first, de.model
+
+
+def decide_matrix_formula(ctx: Check, tree: Tree, fn, flags: dict, key: str, text: str, accepted, spec) -> list:
+    """Three-valued verdict on the matrix a function returns.
+
+    * the non-commutative term for a generic number of channels is one of the accepted forms -> holds for every size;
+    * otherwise the explicit matrices for one and two channels are compared, entry by entry as rational functions,
+      with the defining formula: a difference is a counter-model -> violation;
+    * otherwise (another way of writing a formula that agrees for one and two channels) -> cannot decide (exit 2).
+    Every test `n == k` on the size that the generic evaluation met (a closed form for k channels) is decided on the
+    explicit k x k matrices.  Returns the values of the generic evaluation."""
+    from ..dense import first_difference
+
+    where = tree.loc(fn.node)
+
+    def counter_model() -> str | None:
+        for n in (1, 2):
+            m, model = dense_run(tree, fn, n, flags)
+            diff = first_difference(m, spec(n, model, m))
+            if diff:
+                return f"{n} channel(s): {diff}"
+        return None
+
+    nce = NCEval(tree)
+    try:
         res = nce.run(fn, dict(flags))
         if not res or not isinstance(res[0], NC):
             raise AnalysisError(f"{fn.qual}: no matrix term returned")
-        got = res[0]
-        acc = accepted_t(rel, flags.get("return_t_hat", False))
-        ok = any(got == a for a in acc)
+    except AnalysisError as exc:
+        # the generic evaluation left the modelled subset (an element-wise loop, ...): a counter-model on explicit
+        # matrices still is one; without it nothing is known
+        try:
+            refuted = counter_model()
+        except AnalysisError:
+            refuted = None
+        if refuted is None:
+            raise
+        ctx.violation("R-TERM-NC", key, where, text, {"generic evaluation": f"not possible ({exc})"[:300], "counter-model": refuted})
+        return []
+    got = res[0]
+    acc = accepted(rho_family(nce.model))
+    if any(got == a for a in acc):
+        ctx.ok("R-TERM-NC", where, text)
+    elif {"K", "P"} & inverted_symbols(got):
+        bad = sorted({"K", "P"} & inverted_symbols(got))
+        ctx.violation("R-TERM-NC", key, where, text, {"got": got.show(), "accepted": [a.show() for a in acc],
+                                                      "why": f"the term inverts the symbol matrix {bad} itself: the parametrised K has rank min(n_poles, n_channels), so K^-1 does not exist "
+                                                             "for fewer poles than channels (the accepted forms only invert 1 - iK, which is regular for real K)"})
+    else:
+        refuted = counter_model()
+        if refuted is None:
+            raise AnalysisError(f"{fn.qual}{flags or ''}: the term {got.show()} is not one of the accepted forms {[a.show() for a in acc]} but agrees with the defining formula "
+                                "for one and two channels: cannot decide whether it holds for every number of channels")
+        ctx.violation("R-TERM-NC", key, where, text, {"got": got.show(), "accepted": [a.show() for a in acc], "counter-model": refuted})
+    for (label, size) in sorted(nce.special):
+        m, model = dense_run(tree, fn, size, flags)
+        diff = first_difference(m, spec(size, model, m))
+        ckey = key.rsplit("::", 1)
+        ctx.verdict(diff is None, "R-TERM-NC", f"{ckey[0]}::closed-form::{label} == {size}::{ckey[1]}", where,
+                    f"{text}; branch `{label} == {size}`: the closed form agrees with the defining formula entry by entry on explicit {size}x{size} symbol matrices",
+                    None if diff is None else {"difference": diff})
+    return res
+
+
+def check_t_matrix(ctx: Check, tree: Tree, cls_name: str, rel: bool) -> None:
+    from ..dense import spec_t
+
+    formulate = tree.func(f"{MOD}::{cls_name}.formulate")
+    builder = tree.funcs.get(f"{MOD}::{cls_name}._create_matrices")
+    flag = "return_t_hat"
+    flags_list = [{flag: False}, {flag: True}] if flag in formulate.params else [{}]
+    if "parametrize" not in formulate.params:
+        raise AnalysisError(f"vanished anchor: {formulate.qual} has no parameter `parametrize`")
+    if rel != (len(flags_list) == 2):
+        raise AnalysisError(f"{formulate.qual}: parameter `{flag}` {'missing' if rel else 'unexpected'}")
+    for flags in flags_list:
+        hat = flags.get(flag, False)
         what = {
             (False, False): "T = K (1 - iK)^-1",
             (True, True): "T^ = K (1 - i rho K)^-1",
             (True, False): "T = conj(sqrt rho) K (1 - i rho K)^-1 sqrt rho",
-        }[(rel, flags.get("return_t_hat", False))]
-        ctx.verdict(ok, "R-TERM-NC", f"{fn.qual}::{sorted(flags.items())}", tree.loc(fn.node),
-                    f"{cls_name}._create_matrices{flags or ''}: {what}",
-                    None if ok else {"got": got.show(), "accepted": [a.show() for a in acc]})
-        if len(res) > 1 and isinstance(res[1], NC):
-            k_ok = res[1] == NC.sym("K")
-            ctx.verdict(k_ok, "R-TERM-NC", f"{fn.qual}::returns-K::{sorted(flags.items())}", tree.loc(fn.node),
-                        f"{cls_name}._create_matrices returns the symbol matrix K as second element (the one that is parametrised)")
+        }[(rel, hat)]
+        accepted = lambda name, hat=hat: accepted_t(rel, hat, name)  # noqa: E731
+        spec = lambda n, model, m, hat=hat: spec_t(rel, hat, n, model, m)  # noqa: E731
+        if builder is not None and any(k not in builder.params for k in flags):
+            ctx.info("R-TERM-NC", tree.loc(builder.node), f"{cls_name}._create_matrices has no parameter `{flag}`: what it returns is judged through formulate(parametrize=False)")
+        elif builder is not None:
+            bflags = dict(flags)
+            res = decide_matrix_formula(ctx, tree, builder, bflags, f"{builder.qual}::{sorted(flags.items())}", f"{cls_name}._create_matrices{flags or ''}: {what}", accepted, spec)
+            if len(res) > 1 and isinstance(res[1], NC):
+                k_ok = res[1] == NC.sym("K")
+                ctx.verdict(k_ok, "R-TERM-NC", f"{builder.qual}::returns-K::{sorted(flags.items())}", tree.loc(builder.node),
+                            f"{cls_name}._create_matrices returns the symbol matrix K as second element (the one that is parametrised)")
+        else:
+            ctx.info("R-TERM-NC", tree.loc(formulate.node), f"{cls_name} has no _create_matrices: the matrix is read off formulate(parametrize=False)")
+        # the public entry point hands out that matrix (whatever the private builders are called)
+        decide_matrix_formula(ctx, tree, formulate, {**flags, "parametrize": False}, f"{formulate.qual}::unparametrized::{sorted(flags.items())}",
+                              f"{cls_name}.formulate(parametrize=False{''.join(f', {k}={v}' for k, v in flags.items())}): {what}", accepted, spec)
+
+
+class FormulateRun:
+    """``<class>.formulate(n_channels=2, n_poles, parametrize=True, ...)`` interpreted on explicit matrices: which
+    symbol of the matrix is replaced by what.  The callers' choices (phase-space factor, L, radius, n_poles) are
+    distinguishable model values, calls of ``parametrization`` are recorded with their bound arguments."""
+
+    N = 2
+
+    def __init__(self, tree: Tree, cls_name: str) -> None:
+        from ..dense import DenseEval, Mat
+        from ..poly import RF
+
+        self.tree, self.cls_name = tree, cls_name
+        self.fn = fn = tree.func(f"{MOD}::{cls_name}.formulate")
+        names = _size_params(fn, {})
+        if len(names) < 2 or "parametrize" not in fn.params:
+            raise AnalysisError(f"vanished anchor: {fn.qual}(n_channels, n_poles, parametrize, ...)")
+        de = DenseEval(tree, fn, {names[0]: self.N}, {"parametrize": True})
+        self.model = m = de.model
+        self.own = {names[1]: m.wrap(RF.atom(("sym", names[1], ())))}
+        for p in ("angular_momentum", "meson_radius"):
+            if p in fn.params:
+                self.own[p] = m.wrap(RF.atom(("sym", f"<caller's {p}>", ())))
+        if "phsp_factor" in fn.params:
+            self.own["phsp_factor"] = m.opaque_callable("phsp_factor")
+        de.kwargs.update(self.own)
+        self.value = de.run()
+        if not isinstance(self.value, Mat):
+            raise AnalysisError(f"{fn.qual}: does not return a matrix")
+        self.value = Mat([list(r) for r in self.value.rows])  # a snapshot: the interpreted code may write into the matrix it returned
+        self._de = de
+        self.subs: dict = {}
+        for atom, val in m.substitutions(de.raw):
+            self.subs.setdefault(atom, val)  # in a chain of xreplace calls the first replacement of a symbol is the effective one
+
+    def second_call_difference(self) -> str | None:
+        """formulate() called again with the same arguments in the same interpreter (functions under functools.cache
+        hand out the object they returned the first time): how the second result differs from the first, if it does.
+        None also if the interpreter in use does not model the cache."""
+        from ..dense import Mat, first_difference
+
+        if not hasattr(self.model.ex, "memo"):
+            return None
+        again = self._de.run()
+        if not isinstance(again, Mat):
+            raise AnalysisError(f"{self.fn.qual}: the second call does not return a matrix")
+        return first_difference(again, self.value)
+
+    def param_call(self, value):
+        """(qualname, bound arguments) if ``value`` is exactly one recorded call of a parametrization."""
+        from ..ncterms import _single_atom
+
+        atom = _single_atom(value)
+        return self.model.params.get(atom) if atom is not None else None
+
+    def matrix_difference(self, spec) -> str | None:
+        from ..dense import first_difference
+
+        return first_difference(self.value, spec(self.N, self.model, self.value))
+
+    def placeholders(self) -> dict:
+        """channel index -> symbol atom, for the symbols the matrix depends on besides the elements of K and P."""
+        import re
+
+        from ..dense import deep_symbols
+
+        out: dict = {}
+        for atom in sorted(deep_symbols(self.value), key=repr):
+            mt = re.fullmatch(r".*?(\d+)", atom[1])
+            if mt is None or int(mt.group(1)) in out:
+                raise AnalysisError(f"{self.fn.qual}: the matrix depends on the symbol `{atom[1]}`, which is not one placeholder per channel")
+            out[int(mt.group(1))] = atom
+        return out
+
+    def rho_substitution(self, ctx: Check, ref_bound: dict | None) -> None:
+        """Every placeholder rho_i the matrix depends on (name and assumptions as the producer built it) is replaced
+        by phsp_factor(s, m_a[i], m_b[i]) with the s, m_a, m_b of the parametrisation."""
+        from ..ncterms import _single_atom
+
+        fn, m = self.fn, self.model
+        where = self.tree.loc(fn.node)
+        holders = self.placeholders()
+        if sorted(holders) != list(range(self.N)):
+            raise AnalysisError(f"{fn.qual}: the matrix for {self.N} channels depends on the placeholders {sorted(a[1] for a in holders.values())} (one per channel expected)")
+        for i, atom in sorted(holders.items()):
+            name = atom[1]
+            key = f"{fn.qual}::rho[i]->phsp_factor"
+            what = f"{self.cls_name}.formulate: the placeholder {name} of the matrix is replaced by the caller's phsp_factor(s, m_a[{i}], m_b[{i}])"
+            if atom not in self.subs:
+                ctx.violation("R-WIRING", key, where, what, f"{name} as the matrix holds it (assumptions: {dict(atom[2]) or 'none'}) is not among the substituted symbols "
+                              f"{sorted(f'{k[1]} {dict(k[2]) or str()}'.strip() for k in self.subs if isinstance(k, tuple) and k[0] == 'sym')}: it stays undefined in the result")
+                continue
+            call = m.calls.get(_single_atom(self.subs[atom]))
+            if call is None or call[0] != "phsp_factor":
+                ctx.violation("R-WIRING", key, where, what, f"{name} is replaced by {self.subs[atom]!r:.120}, not by a call of the caller's phsp_factor")
+                continue
+            args = list(call[1])
+            ok, detail = len(args) == 3 and not call[2], None
+            if ok and ref_bound is not None and all(p in ref_bound for p in ("s", "m_a", "m_b")):
+                want = [m.key(ref_bound["s"]), *[m.key(ref_bound[p].attrs["__getitem__"]([i], {})) for p in ("m_a", "m_b")]]
+                got = [m.key(x) for x in args]
+                ok = got[0] == want[0] and sorted(map(repr, got[1:])) == sorted(map(repr, want[1:]))  # the two masses of channel i, in either order
+                detail = None if ok else {"arguments": [str(g)[:120] for g in got], "expected (s, m_a[i], m_b[i] of the parametrisation)": [str(w)[:120] for w in want]}
+            ctx.verdict(ok, "R-WIRING", key, where, what, detail)
+
+
+def formulate_run(tree: Tree, cls_name: str) -> FormulateRun:
+    cache = tree.__dict__.setdefault("_formulate_runs", {})
+    if cls_name not in cache:
+        cache[cls_name] = FormulateRun(tree, cls_name)
+    return cache[cls_name]
+
+
+def check_forwarded(ctx: Check, run: FormulateRun, bound: dict, callee: str) -> None:
+    """The choices of the caller of formulate() arrive at the parametrisation (model level; the keyword-level rule
+    R-FORWARD does not see a value that travels through functools.partial or a **mapping)."""
+    fn, m = run.fn, run.model
+    for p, mine in run.own.items():
+        if p not in bound:
+            continue
+        ok = bound[p] is mine or m.key(bound[p]) == m.key(mine)
+        ctx.verdict(ok, "R-FORWARD", f"{fn.qual}::{callee} receives::{p}", run.tree.loc(fn.node),
+                    f"{run.cls_name}.formulate: {callee}(...) receives the caller's `{p}`",
+                    None if ok else f"it receives {m.key(bound[p])!r:.100} (its default or another value)")
+
+
+def check_parametrize_wiring(ctx: Check, tree: Tree) -> None:
+    """formulate(): every K[i,j] of the matrix is replaced by the class's own parametrization(i=i, j=j, ...) -
+    decided on the interpreted function for two channels (sa/dense.py), not on the spelling of the substitution."""
+    from ..dense import spec_t
+
+    for cls_name, rel in (("NonRelativisticKMatrix", False), ("RelativisticKMatrix", True)):
+        run = formulate_run(tree, cls_name)
+        fn, n = run.fn, run.N
+        where = tree.loc(fn.node)
+        diff = run.matrix_difference(lambda n_, model, m_: spec_t(rel, False, n_, model, m_))
+        ctx.verdict(diff is None, "R-TERM-NC", f"{fn.qual}::parametrized", where,
+                    f"{cls_name}.formulate(parametrize=True), two channels: the matrix into which the parametrisation is substituted is the T-matrix of the defining formula (no further algebra)",
+                    None if diff is None else {"difference": diff})
+        own = f"{MOD}::{cls_name}.parametrization"
+        ref = None
+        for a in range(n):
+            for b in range(n):
+                atom = f"K{a}{b}"
+                key = f"{fn.qual}::K[i,j]->parametrization"
+                what = f"{cls_name}.formulate: K[{a}, {b}] -> {cls_name}.parametrization(i={a}, j={b})"
+                if atom not in run.subs:
+                    ctx.violation("R-WIRING", key, where, what, f"K[{a}, {b}] is not substituted: it stays a free symbol of the result")
+                    continue
+                call = run.param_call(run.subs[atom])
+                if call is None:
+                    ctx.violation("R-WIRING", key, where, what, f"K[{a}, {b}] is replaced by {run.subs[atom]!r:.160}, which is not a (bare) call of the parametrisation")
+                    continue
+                qual, bound = call
+                ok = qual == own and bound.get("i") == a and bound.get("j") == b
+                ctx.verdict(ok, "R-WIRING", key, where, what,
+                            None if ok else f"replaced by {qual.split('::')[-1]}(i={bound.get('i')}, j={bound.get('j')}): matrix element and parametrisation indices disagree (transposed or foreign K)")
+                if ok and ref is None:
+                    ref = bound
+        if ref is not None:
+            check_forwarded(ctx, run, ref, "parametrization")
+
+
+CLASSES = ("NonRelativisticKMatrix", "RelativisticKMatrix", "NonRelativisticPVector", "RelativisticPVector")
+
+
+def _name_skeleton(name: str) -> str:
+    import re
+
+    return re.sub(r"\d+", "{}", name)
 
 
 def check_rho_pairing(ctx: Check, tree: Tree) -> None:
-    """R-SYMPAIR: the rho symbols and the duplicated s/m/Gamma/... constructions agree."""
+    """R-SYMPAIR: the rho symbols and the duplicated s/m/Gamma/... constructions agree.
+
+    Decided on the four formulate() methods as interpreted for two channels (every Symbol / IndexedBase they and
+    their helpers construct, with the name and the assumptions that arrive at the constructor - however the name
+    is built and wherever the construction lives); the construction sites that can be read off the source text
+    are listed in addition."""
+    constructed: dict[str, list[dict]] = {}
+    n_seen = 0
+    for cls_name in CLASSES:
+        run = formulate_run(tree, cls_name)
+        if len(run.model.constructed) < 4:
+            # s, m, Gamma, gamma and R at least: fewer means the symbols come from somewhere the interpreter did not see
+            raise AnalysisError(f"only {len(run.model.constructed)} symbol constructions while interpreting {cls_name}.formulate (s, m, Gamma, gamma, R ... confirmed)")
+        for kind, name, assumptions in run.model.constructed:
+            n_seen += 1
+            constructed.setdefault(_name_skeleton(name), []).append({"in": f"{cls_name}.formulate", "kind": kind, "name": name, "assumptions": assumptions})
+    ctx.stats["symbols_constructed_by_formulate"] = n_seen
+    for skel, members in sorted(constructed.items()):
+        sigs = {(m["kind"], tuple(sorted((k, repr(v)) for k, v in m["assumptions"].items()))) for m in members}
+        ok = len(sigs) == 1
+        ctx.verdict(ok, "R-SYMPAIR", f"{MOD}::symbol `{skel}`", MOD.replace(".", "/"),
+                    f"symbol `{skel}`: the {len(members)} constructions by the formulate() methods agree in kind and assumptions",
+                    None if ok else sorted({f"{m['in']}: {m['kind']}({m['name']!r}, {m['assumptions']})" for m in members}))
+    # producer / consumer: every placeholder the relativistic matrices depend on is replaced by the phase-space factor
+    for cls_name in ("RelativisticKMatrix", "RelativisticPVector"):
+        run = formulate_run(tree, cls_name)
+        ref = next((b for q, b in run.model.params.values() if q == f"{MOD}::RelativisticKMatrix.parametrization"), None)
+        run.rho_substitution(ctx, ref)
+        # R-PLACEHOLDER: rho_i stands for an arbitrary, in general complex, phase-space factor that is
+        # substituted AFTER the matrix algebra; any assumption on the placeholder (positive, real, ...)
+        # lets SymPy simplify conjugate(sqrt(rho)) / Abs / sqrt before the substitution
+        fn = run.fn
+        for i, atom in sorted(run.placeholders().items()):
+            ok = not atom[2]
+            ctx.verdict(ok, "R-PLACEHOLDER", f"{fn.qual}::rho-placeholder-assumptions::matrix", tree.loc(fn.node),
+                        f"{cls_name}: the placeholder {atom[1]} inside the matrix carries no assumptions (it is replaced by a caller-supplied, possibly complex phase-space factor after the algebra)",
+                        None if ok else f"assumptions {dict(atom[2])}: conjugate(sqrt(rho)) is simplified while rho is still a placeholder - the conjugate in K^ = conj(sqrt rho)^-1 K sqrt(rho)^-1 and T = conj(sqrt rho) T^ sqrt(rho) is lost for channels below threshold")
+    # the construction sites as written (positive evidence only: a site whose name or assumptions cannot be read off
+    # the text is covered by the interpreted constructions above)
     sites = symbol_sites(tree, [MOD])
     ctx.stats["symbol_sites_kmatrix"] = len(sites)
-    if len(sites) < 20:
-        raise AnalysisError(f"only {len(sites)} symbol construction sites in kmatrix.py (30 confirmed)")
+    unread = [s for s in sites if s["skeleton"] is None or s.get("star_kwargs")]
+    for s in unread:
+        ctx.info("R-SYMPAIR", tree.loc(s["node"]), "symbol construction whose name / assumptions are computed: judged on the interpreted formulate() methods")
     groups: dict[str, list[dict]] = {}
     for s in sites:
-        if s["skeleton"] is None:
-            raise AnalysisError(f"symbol name not a literal/f-string at {tree.loc(s['node'])}")
-        groups.setdefault(s["skeleton"], []).append(s)
+        if s not in unread:
+            groups.setdefault(s["skeleton"], []).append(s)
     for skel, members in sorted(groups.items()):
         sigs = {(m["kind"], tuple(sorted(m["assumptions"].items()))) for m in members}
         where = tree.loc(members[0]["node"])
@@ -152,51 +439,11 @@ def check_rho_pairing(ctx: Check, tree: Tree) -> None:
             detail = [{"fn": m["fn"], "kind": m["kind"], "assumptions": m["assumptions"], "at": tree.loc(m["node"])} for m in members]
         ctx.verdict(ok, "R-SYMPAIR", f"{MOD}::symbol `{skel}`", where,
                     f"symbol `{skel}`: {len(members)} construction sites agree in kind and assumptions", detail)
-    rho = groups.get("rho{}", [])
-    direct = {m["fn"] for m in rho}
-    graph = tree.call_graph()
-    need = {f"{MOD}::_create_rho_matrix", f"{MOD}::RelativisticKMatrix.formulate", f"{MOD}::RelativisticPVector.formulate"}
-    # a function "constructs" the symbol when a construction site is reachable from it inside this module (helper functions)
-    fns = {q for q in need if any(r in direct for r in tree.reachable(q, graph) if r.startswith(MOD + "::"))}
-    ctx.verdict(need <= fns, "R-SYMPAIR", f"{MOD}::rho-producer-consumer", tree.loc(rho[0]["node"]) if rho else MOD,
-                "Symbol(f'rho{i}') is constructed by the producer (_create_rho_matrix) and substituted by both relativistic formulate() methods (directly or through a shared helper)",
-                None if need <= fns else f"missing at {sorted(need - fns)}: rho_i would stay undefined in the result")
-    # R-PLACEHOLDER: rho_i stands for an arbitrary, in general complex, phase-space factor that is
-    # substituted AFTER the matrix algebra; any assumption on the placeholder (positive, real, ...)
-    # lets SymPy simplify conjugate(sqrt(rho)) / Abs / sqrt before the substitution
-    for m in rho:
+    for m in groups.get("rho{}", []):
         ok = not m["assumptions"]
         ctx.verdict(ok, "R-PLACEHOLDER", f"{m['fn']}::rho-placeholder-assumptions", tree.loc(m["node"]),
                     f"{m['fn'].split('::')[-1]}: the placeholder rho_i carries no assumptions (it is replaced by a caller-supplied, possibly complex phase-space factor after the algebra)",
                     None if ok else f"assumptions {m['assumptions']}: conjugate(sqrt(rho)) is simplified while rho is still a placeholder - the conjugate in K^ = conj(sqrt rho)^-1 K sqrt(rho)^-1 and T = conj(sqrt rho) T^ sqrt(rho) is lost for channels below threshold")
-
-
-def check_parametrize_wiring(ctx: Check, tree: Tree) -> None:
-    """formulate(): K[i,j] is replaced by the class's own parametrization(i=i, j=j, ...)."""
-    for cls_name in ("NonRelativisticKMatrix", "RelativisticKMatrix"):
-        fn = tree.func(f"{MOD}::{cls_name}.formulate")
-        hits = []
-        for n_ in walk_function(fn.node):
-            # an item of a dict comprehension, or a store `substitutions[K[i, j]] = parametrization(...)`
-            if isinstance(n_, ast.DictComp) and isinstance(n_.key, ast.Subscript) and isinstance(n_.value, ast.Call):
-                key, value = n_.key, n_.value
-            elif (isinstance(n_, ast.Assign) and len(n_.targets) == 1 and isinstance(n_.targets[0], ast.Subscript)
-                  and isinstance(n_.targets[0].slice, ast.Subscript) and isinstance(n_.value, ast.Call)):
-                key, value = n_.targets[0].slice, n_.value
-            else:
-                continue
-            callee = tree.callee(value, fn)
-            if callee and callee.endswith(".parametrization"):
-                hits.append((n_, key, value, callee))
-        if not hits:
-            raise AnalysisError(f"{fn.qual}: no {{K[i, j]: parametrization(...)}} substitution found")
-        for node, key_, value_, callee in hits:
-            kw = {k.arg: unparse(k.value) for k in value_.keywords}
-            idx = unparse(key_.slice)
-            ok = callee == f"{MOD}::{cls_name}.parametrization" and idx.replace(" ", "").strip("()") == f"{kw.get('i')},{kw.get('j')}"
-            ctx.verdict(ok, "R-WIRING", f"{fn.qual}::K[i,j]->parametrization", tree.loc(node),
-                        f"{cls_name}.formulate: {unparse(key_)} -> {callee.split('::')[-1]}(i={kw.get('i')}, j={kw.get('j')})",
-                        None if ok else "matrix element and parametrisation indices disagree (transposed or foreign K)")
 
 
 def check_cached_matrices_not_mutated(ctx: Check, tree: Tree) -> None:
@@ -205,9 +452,10 @@ def check_cached_matrices_not_mutated(ctx: Check, tree: Tree) -> None:
     for the same number of channels returns something else than the first."""
     from .c06 import AliasFlow, memoised_functions, mutable_result
 
-    sources = {f.qual: f"memoised {f.qual}" for f in memoised_functions(tree) if f.qual.startswith(MOD + "::") and mutable_result(f) and f.cls is not None and f.cls.name in ('RelativisticKMatrix', 'NonRelativisticKMatrix')}
-    if len(sources) < 2:
-        raise AnalysisError(f"only {len(sources)} memoised _create_matrices found for RelativisticKMatrix/NonRelativisticKMatrix")
+    sources = {f.qual: f"memoised {f.qual}" for f in memoised_functions(tree) if f.qual.startswith(MOD + "::") and mutable_result(f)
+               and (f.cls is None or f.cls.name in ('RelativisticKMatrix', 'NonRelativisticKMatrix'))}
+    if not sources:
+        raise AnalysisError("no memoised matrix builder found for RelativisticKMatrix/NonRelativisticKMatrix (two functools.cache'd _create_matrices confirmed): how the matrices are cached cannot be read off")
     flow = AliasFlow(tree, sources)
     flow.fixpoint()
     bad = [(fn, node, origin) for fn, node, origin in flow.mutations() if fn.qual not in sources]
@@ -217,9 +465,25 @@ def check_cached_matrices_not_mutated(ctx: Check, tree: Tree) -> None:
                       "the cached matrix is shared by all later calls with the same n_channels: the second formulate() starts from the already modified matrix")
     if not bad:
         ctx.ok("R-CACHE", MOD.replace(".", "/"), f"the {len(sources)} memoised matrix builders' results are only read / substituted (xreplace), never written")
+    second_call_agrees(ctx, tree, ("NonRelativisticKMatrix", "RelativisticKMatrix"))
+
+
+def second_call_agrees(ctx: Check, tree: Tree, classes: tuple) -> None:
+    """R-CACHE on the interpreted function: formulate() called twice (two channels, explicit matrices, memoised
+    builders hand out the same object again) returns the same matrix - wherever and however a write happens."""
+    for cls_name in classes:
+        run = formulate_run(tree, cls_name)
+        diff = run.second_call_difference()
+        ctx.verdict(diff is None, "R-CACHE", f"{run.fn.qual}::second-call", tree.loc(run.fn.node),
+                    f"{cls_name}.formulate: a second call with the same arguments returns the same matrix as the first (nothing is written into a memoised matrix)",
+                    None if diff is None else {"second call": diff})
 
 
 # --------------------------------------------------------------------------- R-POLESIGN
+
+
+# applications through which the sign of q^2 passes unchanged in the sense of this rule (a bare q^2 below them is bare)
+SIGN_TRANSPARENT = {"ComplexSqrt", "sqrt", "Sum", "Mul", "Add", "Pow", "Piecewise", "conjugate", "Rational", "Integer"}
 
 
 def _bare_q2_at(te: TermEval, v, point_key, under_abs: bool, trail: tuple, hits: list, seen: set, depth: int = 0) -> None:
@@ -236,14 +500,27 @@ def _bare_q2_at(te: TermEval, v, point_key, under_abs: bool, trail: tuple, hits:
         seen.add((a, under_abs))
         if a[0] == "sqrt":
             rad = D.radicands[a]
-            if not under_abs and not _sign_safe(te, rad):
-                hits.append((*trail, "sqrt of a radicand that is not sign-definite"))
+            if not under_abs:
+                sign = _radicand_sign(te, rad)
+                if sign == "can-be-negative":
+                    hits.append((*trail, "sqrt of a radicand that is not sign-definite"))
+                elif sign == "unknown":
+                    raise AnalysisError(f"R-POLESIGN: whether the radicand {show_poly(rad)[:120]} ({' > '.join(trail) or 'top level'}) can be negative is not decided "
+                                        "(not a sum of absolute values / even powers, no negative sample point found)")
             _bare_q2_at(te, RF(rad), point_key, under_abs, (*trail, "sqrt"), hits, seen, depth + 1)
             continue
+        if a[0] == "pow" and "BreakupMomentumSquared" in repr(a):
+            raise AnalysisError(f"R-POLESIGN: a power with a symbolic exponent over q^2 ({' > '.join(trail) or 'top level'}): its sign behaviour is not modelled")
         if a[0] != "app" or a not in te.apps:
             continue
         info = te.apps[a]
         name = info.cls.split("::")[-1]
+        if info.cls.startswith("call:") or (info.cls not in te.classes and name not in SIGN_TRANSPARENT and name != "Abs" and name != "BreakupMomentumSquared"):
+            if "BreakupMomentumSquared" in repr(a):
+                # f(q^2) for a function this rule has no sign model of (a callable value that was not followed, an
+                # unknown SymPy function): neither "bare" nor "protected" can be claimed
+                raise AnalysisError(f"R-POLESIGN: q^2 is an argument of `{name[:60]}` ({' > '.join(trail) or 'top level'}), whose sign behaviour is not modelled")
+            continue
         if name == "Abs":
             for y in info.args:
                 _bare_q2_at(te, y, point_key, True, (*trail, "Abs"), hits, seen, depth + 1)
@@ -265,20 +542,44 @@ def _bare_q2_at(te: TermEval, v, point_key, under_abs: bool, trail: tuple, hits:
                 _bare_q2_at(te, y, point_key, under_abs, (*trail, name), hits, seen, depth + 1)
 
 
-def _sign_safe(te: TermEval, rad) -> bool:
-    """A radicand that cannot be negative for real arguments whatever their values: one monomial with a
-    positive coefficient whose factors are absolute values or even powers."""
+def _radicand_sign(te: TermEval, rad) -> str:
+    """Three-valued: "nonneg" - a sum of monomials with positive coefficients whose factors are absolute values, roots
+    or even powers (cannot be negative whatever the values); "can-be-negative" - a counter-model: the polynomial is
+    negative at a sample point (plain symbols - masses, s - positive, absolute values and roots non-negative, every
+    other application any real number); "unknown" otherwise."""
+    import itertools
+    from fractions import Fraction
+
+    def nonneg_atom(atom) -> bool:
+        if isinstance(atom, tuple) and atom and atom[0] == "sqrt":
+            return True
+        return isinstance(atom, tuple) and bool(atom) and atom[0] == "app" and atom in te.apps and te.apps[atom].cls.split("::")[-1] == "Abs"
+
     terms = rad.t
-    if len(terms) != 1:
-        return False
-    ((mono, coeff),) = terms.items()
-    if coeff <= 0:
-        return False
-    for atom, exp in mono:
-        is_abs = isinstance(atom, tuple) and atom and atom[0] == "app" and atom in te.apps and te.apps[atom].cls.split("::")[-1] == "Abs"
-        if not is_abs and exp % 2:
-            return False
-    return True
+    if all(c > 0 and all(nonneg_atom(a) or e % 2 == 0 for a, e in mono) for mono, c in terms.items()):
+        return "nonneg"
+    atoms = sorted({a for mono in terms for a, _ in mono}, key=repr)
+    if len(atoms) > 5:
+        return "unknown"
+    grids = []
+    for a in atoms:
+        if nonneg_atom(a):
+            grids.append([Fraction(0), Fraction(1, 3), Fraction(2)])
+        elif isinstance(a, tuple):
+            grids.append([Fraction(-2), Fraction(-1, 3), Fraction(1, 3), Fraction(2)])  # an application: any real value
+        else:
+            grids.append([Fraction(1, 5), Fraction(1), Fraction(3), Fraction(11)])  # a mass / an invariant mass squared: positive
+    for point in itertools.product(*grids):
+        val = dict(zip(atoms, point))
+        total = Fraction(0)
+        for mono, c in terms.items():
+            t = Fraction(c)
+            for a, e in mono:
+                t *= val[a] ** e
+            total += t
+        if total < 0:
+            return "can-be-negative"
+    return "unknown"
 
 
 def check_pole_sign(ctx: Check, tree: Tree) -> None:
@@ -349,24 +650,27 @@ def check_pole_sign(ctx: Check, tree: Tree) -> None:
 
 def run(ctx: Check, tree: Tree) -> None:
     ctx.decided += [
-        'closed forms for a concrete number of channels satisfy T(1-iK)=K entry by entry on an explicit symbol matrix (sa/dense.py)',
-        'R-POLESIGN: the normalisation constants of EnergyDependentWidth at the pole are sign-insensitive; PhaseSpaceFactorAbs is real for every real s',
+        "the matrix builders and formulate() are INTERPRETED on model matrices (sa/ncterms.py MatrixModel on the model executor): helper functions, closures, loops, functools.partial / reduce, named tuples ... are followed like any other spelling",
+        "T = K(1-iK)^-1; T^ = K(1 - i rho K)^-1 (or the push-through equivalent), T = conj(sqrt rho) T^ sqrt rho - non-commutative normal form for a generic number of channels, for _create_matrices and for the public formulate(parametrize=False) (R-TERM-NC); a term outside the accepted forms is a violation only with a counter-model (explicit matrices for one and two channels differ from the defining formula, or the term inverts K itself), otherwise undecided",
+        'closed forms for a concrete number of channels (a test `n == k` met by the generic evaluation) agree with the defining formula entry by entry on explicit symbol matrices (sa/dense.py)',
+        "formulate(parametrize=True), interpreted for two channels: the matrix is the T-matrix of the defining formula, every K[i,j] is replaced by the class's own parametrization(i=i, j=j), every placeholder rho_i of the matrix by the caller's phsp_factor(s, m_a[i], m_b[i]) with the s, m_a, m_b of the parametrisation, and the parametrisation receives the caller's n_poles / L / radius / phsp_factor (R-WIRING, R-FORWARD)",
+        "every Symbol / IndexedBase the four formulate() methods construct (names and assumptions as they arrive at the constructor) agrees with its namesakes; the rho_i placeholders carry no assumptions (R-SYMPAIR, R-PLACEHOLDER)",
+        "a second formulate() call returns the same matrix as the first (memoised builders hand out the same object: nothing is written into it) (R-CACHE)",
+        'R-POLESIGN: the normalisation constants of EnergyDependentWidth at the pole are sign-insensitive; PhaseSpaceFactorAbs is real for every real s (a radicand counts as possibly negative only with a sample point where it is)',
         "K-matrix parametrisations are symmetric under i<->j, contain no imaginary unit, and sum over the poles (R-TERM)",
-        "T = K(1-iK)^-1; T^ = K(1 - i rho K)^-1 (or the push-through equivalent), T = conj(sqrt rho) T^ sqrt rho - non-commutative normal form (R-TERM-NC)",
-        "rho symbols of producer and consumers agree; duplicated s/m/Gamma/gamma/m_a/m_b/R constructions agree in kind and assumptions (R-SYMPAIR)",
-        "formulate substitutes K[i,j] by the own parametrization(i=i, j=j) (R-WIRING)",
-        "the rho_i placeholders carry no assumptions (R-PLACEHOLDER)",
         "phsp_factor / angular_momentum / meson_radius are forwarded to every callee in ampform.dynamics (R-FORWARD): the width of the relativistic K-matrix is a ratio of ONE phase-space factor at s and at the pole, hence real",
     ]
-    ctx.not_decided += ["numerical unitarity (1+2iT)^dagger(1+2iT)=1", "that the chosen phase-space factor is real above threshold (see C11)"]
+    ctx.not_decided += ["numerical unitarity (1+2iT)^dagger(1+2iT)=1", "that the chosen phase-space factor is real above threshold (see C11)",
+                        "formulate(parametrize=True) for more than two channels (the substitution is judged on the two-channel evaluation; the matrix algebra for every size)"]
     ctx.assumptions += [
         "matrix identities: K(1-iK)^-1 = (1-iK)^-1 K and K(1-i rho K)^-1 = (1-i K rho)^-1 K (push-through); S = 1+2iT",
-        "sympy Matrix * and .inv() are the matrix product / inverse",
+        "sympy Matrix * and .inv() are the matrix product / inverse; sp.sqrt / sp.conjugate of a diagonal matrix act on the diagonal; xreplace substitutes without further algebra",
+        "create_symbol_matrix(name, m, n) is an m x n matrix of distinct symbols (ampform.sympy; not entered)",
     ]
     D.reset()
     te = TermEval(tree)
     for cls_name in ("NonRelativisticKMatrix", "RelativisticKMatrix"):
-        check_k_symmetric_real(ctx, tree, te, cls_name)
+        ctx.section(check_k_symmetric_real, ctx, tree, te, cls_name)
     ctx.section(check_t_matrix, ctx, tree, "NonRelativisticKMatrix", rel=False)
     ctx.section(check_t_matrix, ctx, tree, "RelativisticKMatrix", rel=True)
     ctx.section(check_rho_pairing, ctx, tree)
